@@ -255,10 +255,14 @@ def run_decwrap(prog, ctx=None):
         for bid, b in f.blocks.items():
             if b.term and b.term.get("cls") in ("WhileStmt", "ForStmt", "DoStmt") and b.term.get("cond") is not None:
                 for n in walk(b.term["cond"]):
-                    if n.get("k") == "un" and n.get("op") == "--" and not n.get("post"):
+                    if n.get("k") == "un" and n.get("op") == "--":
                         T = f.T(n["e"].get("t"))
                         if T.get("k") == "int" and not T.get("signed"):
-                            cands.append((bid, b, n))
+                            if n.get("post"):
+                                # `while (n--)`: tests the value before the decrement, the body never sees a wrapped count
+                                res.ob("%s:%s" % (f.qn, norm(show(b.term["cond"], f))), True, f, n.get("l", 0), detail={"idiom": "post-decrement test"})
+                            else:
+                                cands.append((bid, b, n))
         if not cands:
             continue
         an = Analysis(prog, f).run()
@@ -270,4 +274,217 @@ def run_decwrap(prog, ctx=None):
             res.ob("%s:%s" % (f.qn, norm(show(b.term["cond"], f))), ok, f, n.get("l", 0),
                    "" if ok else "loop condition pre-decrements unsigned %s which may be 0 (%s): wraps to the maximum and skips the last element otherwise" % (
                        norm(show(n["e"], f)), v), {"value": v.tojson() if v else None})
+    return res
+
+
+def _is_iovec_ptr(f, tid):
+    T = f.T(tid)
+    if T.get("k") != "ptr":
+        return False
+    P = f.T(T.get("to"))
+    return P.get("k") == "record" and P.get("name", "").endswith("iovec")
+
+
+def run_cursor(prog, ctx=None):
+    """CURSOR: every advance of an iovec cursor is paired with a decrement of its element count and happens only while that count is non-zero.
+
+    companion of  B.cont / B->cont (struct message)        : B.clen
+                  local initialised from  M->cont           : the local initialised from M->clen
+                  parameter `struct iovec *p`               : the integer parameter that follows it
+    accepted idioms: (a) count decremented in the same basic block as the advance, count >= 1 there (interval);
+                     (b) a block dominating the advance branches on a decrement of the count (`if (!n--) return`, `while (n--)`).
+    """
+    res = Result("CURSOR")
+    files = set(ctx.get("files", [])) if ctx else None
+    for f in funcs_of(prog, files):
+        incs = []
+        for b, i, e in f.elements():
+            for n in walk_own(e):
+                tgt = None
+                if n.get("k") == "un" and n.get("op") == "++":
+                    tgt = n["e"]
+                elif n.get("k") == "bin" and n.get("op") == "+=" and cval(n["b"]) == 1:
+                    tgt = n["a"]
+                if tgt is not None and _is_iovec_ptr(f, tgt.get("t")):
+                    incs.append((b, i, n, strip(tgt, lvalue_to_rvalue=False)))
+        if not incs:
+            continue
+        # companions
+        local_from = {}     # local id -> ("cont"/"clen", base text)
+        for b, i, n in f.walk_all():
+            src = None
+            if n.get("k") == "decl":
+                for v in n["vars"]:
+                    if v.get("init") is not None:
+                        s = strip(v["init"], all_casts=True)
+                        if s.get("k") == "mem" and s.get("f") in ("cont", "clen"):
+                            local_from[v["id"]] = (s["f"], norm(show(s["b"], f)))
+            elif n.get("k") == "bin" and n.get("op") == "=":
+                l = strip(n["a"], lvalue_to_rvalue=False)
+                s = strip(n["b"], all_casts=True)
+                if l.get("k") == "ref" and "id" in l["d"] and s.get("k") == "mem" and s.get("f") in ("cont", "clen"):
+                    local_from[l["d"]["id"]] = (s["f"], norm(show(s["b"], f)))
+        an = None
+        dom = f.dominators()
+
+        def is_count(x, comp):
+            x = strip(x, lvalue_to_rvalue=False)
+            if comp[0] == "mem":
+                return x.get("k") == "mem" and x.get("f") == "clen" and norm(show(x["b"], f)) == comp[1]
+            return x.get("k") == "ref" and x["d"].get("id") == comp[1]
+
+        def decs_in(e, comp):
+            out = []
+            for n in walk(e):
+                if n.get("k") == "un" and n.get("op") == "--" and is_count(n["e"], comp):
+                    out.append(n)
+                elif n.get("k") == "bin" and n.get("op") == "-=" and is_count(n["a"], comp):
+                    out.append(n)
+            return out
+
+        for b, i, n, tgt in incs:
+            comp = None
+            if tgt.get("k") == "mem" and tgt.get("f") == "cont":
+                comp = ("mem", norm(show(tgt["b"], f)))
+            elif tgt.get("k") == "ref" and "id" in tgt["d"]:
+                vid = tgt["d"]["id"]
+                if vid in local_from and local_from[vid][0] == "cont":
+                    cands = [k for k, v in local_from.items() if v[0] == "clen" and v[1] == local_from[vid][1]]
+                    if cands:
+                        comp = ("var", cands[0])
+                elif tgt["d"].get("dk") == "param":
+                    idx = [k for k, p in enumerate(f.params) if p["id"] == vid]
+                    if idx and idx[0] + 1 < len(f.params) and f.T(f.params[idx[0] + 1]["t"]).get("k") == "int":
+                        comp = ("var", f.params[idx[0] + 1]["id"])
+            key = "%s:%s" % (f.qn, norm(show(n, f)))
+            if comp is None:
+                res.notes.append("%s: no element count found for this cursor" % key)
+                continue
+            # (b) dominating decrement test
+            guarded = False
+            for pb in dom[b.id]:
+                blk = f.blocks[pb]
+                if blk.term and blk.term.get("cond") is not None and decs_in(blk.term["cond"], comp):
+                    guarded = True
+            same = any(decs_in(e2, comp) for e2 in b.el)
+            if guarded:
+                res.ob(key, True, f, n.get("l", 0), detail={"idiom": "advance dominated by a branch on the count's decrement"})
+                continue
+            if not same:
+                res.ob(key, False, f, n.get("l", 0), "cursor advanced without decrementing its element count in the same step")
+                continue
+            # (c) position walk: `while (pos > cur->iov_len) { pos -= cur->iov_len; --n; ++cur; }` — the position was obtained
+            #     from a search over the same (cursor, count) pair, the bound is relational and not an interval fact
+            walkpos = False
+            for e2 in b.el:
+                for m in walk_own(e2):
+                    if m.get("k") == "bin" and m.get("op") == "-=":
+                        r = strip(m["b"], all_casts=True)
+                        if r.get("k") == "mem" and r.get("f") == "iov_len" and norm(show(r["b"], f)) == norm(show(tgt, f)):
+                            walkpos = True
+            if walkpos:
+                res.ob(key, True, f, n.get("l", 0), detail={"idiom": "position walk bounded by a search result over the same fragments (relational, accepted by shape)"})
+                continue
+            if an is None:
+                an = Analysis(prog, f).run()
+            # value of the count before the first element of this block that touches it
+            cexpr = None
+            for e2 in b.el:
+                for d in decs_in(e2, comp):
+                    cexpr = d.get("e") or d.get("a")
+            first = min(k for k, e2 in enumerate(b.el) if decs_in(e2, comp) or e2 is b.el[i])
+            v = an.val(b.id, min(first, i), cexpr)
+            ok = v is not None and v.lo >= 1
+            res.ob(key, ok, f, n.get("l", 0),
+                   "" if ok else "cursor advanced while its element count may be zero (%s)" % v, {"count": v.tojson() if v else None})
+    return res
+
+
+def natural_loops(f):
+    dom = f.dominators()
+    loops = {}
+    for bid, b in f.blocks.items():
+        for s in b.succ:
+            if s is not None and s in dom[bid]:
+                # back edge bid -> s
+                body = loops.setdefault(s, {s})
+                st = [bid]
+                while st:
+                    x = st.pop()
+                    if x in body:
+                        continue
+                    body.add(x)
+                    st.extend(f.blocks[x].preds)
+    return loops
+
+
+def _lv_names(f, e):
+    """textual names of the lvalues (variables, member paths) read in e"""
+    out = set()
+    for n in walk(e):
+        if n.get("k") == "ref" and "id" in n["d"]:
+            out.add("v%d" % n["d"]["id"])
+        elif n.get("k") == "mem":
+            out.add(norm(show(n, f)))
+    return out
+
+
+def run_progress(prog, ctx=None):
+    """PROGRESS: every loop changes something one of its exit conditions reads (or exits on a call result)"""
+    res = Result("PROGRESS")
+    files = set(ctx.get("files", [])) if ctx else None
+    names = ctx.get("names") if ctx else None
+    for f in funcs_of(prog, files, names):
+        loops = natural_loops(f)
+        for h, body in sorted(loops.items()):
+            conds = []
+            for x in body:
+                blk = f.blocks[x]
+                if blk.term and blk.term.get("cond") is not None and any(s is not None and s not in body for s in blk.succ):
+                    conds.append(blk.term["cond"])
+            modified = set()
+            hascall_in_cond = False
+            for c in conds:
+                for n in walk(c):
+                    if n.get("k") == "call":
+                        hascall_in_cond = True
+            for x in body:
+                for e in f.blocks[x].el:
+                    for n in walk_own(e):
+                        tgt = None
+                        if n.get("k") == "bin" and n["op"].endswith("=") and n["op"] not in ("==", "!=", "<=", ">="):
+                            tgt = n["a"]
+                        elif n.get("k") == "un" and n.get("op") in ("++", "--"):
+                            tgt = n["e"]
+                        elif n.get("k") == "decl":
+                            for v in n["vars"]:
+                                if v.get("init") is not None:
+                                    modified.add("v%d" % v["id"])
+                        elif n.get("k") == "call":
+                            for a in n.get("args", []):
+                                s = strip(a, all_casts=True)
+                                if s.get("k") == "un" and s.get("op") == "&":
+                                    modified |= _lv_names(f, s["e"])
+                                elif s.get("k") == "ref" and f.T(s.get("t")).get("k") == "ptr":
+                                    # callee may advance what the pointer refers to (message cursors, streams)
+                                    modified.add("v%d" % s["d"].get("id", -1))
+                                    modified |= {m for c in conds for m in _lv_names(f, c) if m.startswith(s["d"]["n"] + "->")}
+                        if tgt is not None:
+                            t = strip(tgt, lvalue_to_rvalue=False)
+                            if t.get("k") == "ref" and "id" in t["d"]:
+                                modified.add("v%d" % t["d"]["id"])
+                            elif t.get("k") == "mem":
+                                modified.add(norm(show(t, f)))
+                            else:
+                                modified |= _lv_names(f, t)
+            read = set()
+            for c in conds:
+                read |= _lv_names(f, c)
+            line = f.blocks[h].term.get("l", 0) if f.blocks[h].term else (f.blocks[h].el[0].get("l", 0) if f.blocks[h].el else f.line)
+            ok = bool(read & modified) or hascall_in_cond
+            if not conds:
+                ok = False
+            res.ob("%s:loop@%s" % (f.qn, norm(show(f.blocks[h].term.get("cond"), f))[:60] if f.blocks[h].term and f.blocks[h].term.get("cond") is not None else "B%d" % h),
+                   ok, f, line, "" if ok else ("loop has no exit" if not conds else "no exit condition of this loop reads anything the loop changes"),
+                   {"exit_reads": sorted(read)[:8], "changes": sorted(modified)[:8]})
     return res
